@@ -9,6 +9,7 @@ from vf.harness import histories, itemrun as ir, itemworld as iw
 from vf.harness import world as w
 
 TRUSTED = [
+    "directory clean-up (Model/Rmdirs.v): a kill = an exception out of os.rmdir; rmdir errors other than ENOENT / ENOTEMPTY (warn and go on) are not modelled",
     "Coq 8.16.1 kernel + VM (the item theorems are decided by vm_compute over complete finite enumerations, lifted by forallb_forall); no native_compute",
     "the item model is hand-written (Model/Item.v); its tie is the correspondence: the states left by a kill at every interposed call of the real daemon, and the fault-free rounds after it, "
     "are compared with the model's in Coq; the order of effects in pull_async / copy_request_done / delete_async / check_async is additionally pinned from the source text",
